@@ -118,7 +118,7 @@ func runBFS(plan *Plan, st Stage, si int, tier string, seed int64) (*vlib.Result
 		os.Remove(fpath)
 		roundRes.States = 0
 		total.Merge(roundRes)
-		if len(roundRes.Violations) > 0 {
+		if hasUnknown(plan.ID, roundRes.Violations) {
 			break
 		}
 		sort.Slice(next, func(i, j int) bool {
